@@ -242,7 +242,11 @@ def _store_array(
     identity = lambda a: a
     blockwise_kwargs = blockwise_kwargs or {}
     if region is None or all(r == slice(None) for r in region):
-        if not isinstance(source._zarray, LazyZarrArray):
+        if not isinstance(source._zarray, LazyZarrArray) or getattr(
+            source._zarray, "_retargeted", False
+        ):
+            # the source is already materialized (or is already being stored
+            # somewhere else), so copy it to the target
             ind = tuple(range(source.ndim))
             return blockwise(
                 identity,
@@ -259,13 +263,11 @@ def _store_array(
             # TODO: allow late assignment of array stores so we don't have to re-wire
             # and update write proxy
 
-            # replace source target array with new target
-            source._zarray = target
-
-            # replace plan target array with new target
-            for n, d in source._plan.dag.nodes(data=True):
-                if n == source.name and "target" in d:
-                    d["target"] = target
+            # point the source's lazy array at the new target; the object is shared
+            # by every plan that contains the source (including arrays derived from
+            # it earlier), so they all see the new location
+            source._zarray.retarget(target)
+            target = source._zarray
 
             # update predecessor ops
             from cubed.core.optimization import predecessors_unordered
